@@ -1,5 +1,6 @@
 import Goyang.Lemmas.BridgeDeviate
 import Goyang.Lemmas.BridgeRegistry
+import Goyang.Lemmas.BridgeLoad
 import Goyang.Props.C08
 import Goyang.Props.C04
 /-
@@ -26,7 +27,9 @@ Hypotheses: `Fuel.LoadedShape reg` (distinct sequence numbers; what loading prod
 statement).  Both are needed: `conversionErrorsReported_needs_loadedShape` is a registry with two
 entries under one sequence number, of which `processAll` converts only the first, so that the bad
 deviation of the second goes unnoticed — the statement of Props/C08.lean quantified over ALL
-registries is false; over the registries loading produces it is `conversionErrorsReported_loaded`.
+registries is false; over the registries loading produces it is `conversionErrorsReported_loaded`
+(statements handed to `Registry.loadAll`) and, with no hypothesis left, `conversionErrorsReported_loadTexts`
+(raw texts through `Model.loadTexts` = `Modules.Parse`).
 -/
 namespace Goyang.Props.C08Bridge
 open Goyang.Model
@@ -75,6 +78,13 @@ theorem conversionErrorsReported_loaded (ss : List Stmt) (hss : ∀ s ∈ ss, is
   rcases loadFrom_src ss {} m hm with h1 | h1
   · simp at h1
   · exact hss m.stmt h1
+
+/-- … and for what `Modules.Parse` produces from raw texts (`Model.loadTexts`: generic parser, AST
+builder, the top-level check, `Registry.add`): no hypothesis is left — both `LoadedShape` and
+`ModsAreModules` hold of every such registry, whichever texts are accepted or rejected. -/
+theorem conversionErrorsReported_loadTexts (texts : List (List UInt8 × List UInt8)) (opts : Opts) (plug : Plug) :
+    C08.ConversionErrorsReported (loadTexts texts).1 opts plug :=
+  conversionErrorsReported _ opts plug (loadedShape_loadTexts texts) (modsAreModules_loadTexts texts)
 
 /-! ### non-vacuity, and why the hypothesis on the registry is needed -/
 section Examples
